@@ -1,9 +1,147 @@
-(** C01 — placeholder while the routing proofs are being built. *)
-From Coq Require Import List NArith ZArith Bool.
-Require Import RV.Model.Base RV.Model.PipeQueue RV.Model.Pipe RV.Proofs.PipeReaderProofs.
+(** C01 — Auto-pipelined calls always receive their own replies, in order.
+
+    Object: the labelled transition system [PipeLts.pstep] (any number of callers of Do / DoMulti with
+    single, batched, opt-in-cached and subscribe / unsubscribe commands, context cancellation at any
+    moment, Close, connection failures, the writer, the reader [Pipe.reader_step] — a transcription of
+    _backgroundRead —, the clean-up loop, a server that follows ServerProto and may push at any time).
+    Quantifier: every schedule ([prun g sched]), every configuration [g] (queue kind and capacity,
+    RESP2 pub/sub mode, any server behaviour allowed by ServerProto, version <> 6).
+
+    Reading guide
+    - [users s]: synchronous callers currently writing/reading the connection + 1 if the background
+      writer or reader runs.
+    - [k_res (p_calls s t)]: what has been written into call t's result slots so far;
+      [k_ret (p_calls s t)]: what Do / DoMulti returned to the caller of t.
+    - [result_of srv c]: the reply the server gave to command c (the empty message for a confirmed
+      subscribe, the PONG of the appended PING for an unsubscribe).
+
+    Scope of the hypothesis [g_kind g = Ring \/ g_putfail0 g = false]:
+    for the ring queue (the default) there is no restriction at all.  For the flow buffer one step is
+    excluded: PutOne / PutMulti giving up on a done context *while the pipe is still in its synchronous
+    phase* (state 0).  With that step the faithful model violates the statement
+    ([C01_exclusive_conn_flow_refuted]): the synchronous caller that finishes decrements `waits`,
+    sees left <> 0 and calls background() *after* having released its count; if the only queued caller
+    leaves through that error path in between, a new caller may see waits = 1 and use the connection
+    synchronously while the background loops start.  [C01_exclusive_conn_characterised] shows this is
+    the only way to violate exclusivity.  No implementation replay of this three-way race exists (it
+    needs two pre-emptions within a few instructions), hence no code change; see docs/pipe.md. *)
+From Coq Require Import List NArith ZArith Bool String.
+Require Import RV.Model.Base RV.Model.PipeQueue RV.Model.Pipe RV.Model.PipeLts.
+Require Import RV.Proofs.PipeLtsBasics RV.Proofs.PipeReaderProofs RV.Proofs.PipeExclusive RV.Proofs.PipeRouting.
 Import ListNotations.
 Open Scope N_scope.
 
-Theorem C01_sync_multi_length : forall n fs ms r, sync_multi n fs = Some (ms, r) -> List.length ms = n.
-Proof. exact sync_multi_length. Qed.
-Print Assumptions C01_sync_multi_length.
+(** ServerProto *)
+Definition server_ok (g : config) : Prop := forall c, cmd_served_ok (g_r2ps g) (g_srv g) c = true.
+
+(** full statement (refuted for the flow buffer, see below):
+    forall g sched s, prun g sched (p_init g) = Some s -> users s <= 1 *)
+Theorem C01_exclusive_conn_partial : forall g sched s,
+  g_kind g = Ring \/ g_putfail0 g = false ->
+  prun g sched (p_init g) = Some s -> (users s <= 1)%nat.
+Proof. intros g sched s Hg H. exact (exclusive_conn g Hg sched s H). Qed.
+Print Assumptions C01_exclusive_conn_partial.
+
+Theorem C01_exclusive_conn_ring : forall g sched s,
+  g_kind g = Ring -> prun g sched (p_init g) = Some s -> (users s <= 1)%nat.
+Proof. intros g sched s Hg H. exact (exclusive_conn g (or_introl Hg) sched s H). Qed.
+Print Assumptions C01_exclusive_conn_ring.
+
+Definition echo_srv : server := mkSrv (fun c => Msg 36 [c_id c] 0 []) (fun c => []) (fun c => pong_msg).
+Definition plain (id : N) : cmd := mkCmd id 2 false false false false false false.
+Definition flow_cfg : config := mkCfg Flow 2 false 7 echo_srv true.
+Definition flow_race : list label :=
+  [LCall 1 [plain 10] false CtxBg; LIncr 1; LLoad 1; LSyncW 1;
+   LCall 2 [plain 20] false CtxDeadline; LIncr 2; LLoad 2; LCtxDone 2;
+   LSrv; LSyncR 1; LDecr 1; LPutFail 2;
+   LCall 3 [plain 30] false CtxBg; LIncr 3; LLoad 3; LBgAfter 1].
+
+Theorem C01_exclusive_conn_flow_refuted :
+  exists g sched s, g_kind g = Flow /\ prun g sched (p_init g) = Some s /\ users s = 2%nat.
+Proof.
+  exists flow_cfg, flow_race.
+  destruct (prun flow_cfg flow_race (p_init flow_cfg)) as [s|] eqn:E; [|vm_compute in E; discriminate].
+  exists s. split; [reflexivity|split; [reflexivity|]].
+  assert (K : option_map users (prun flow_cfg flow_race (p_init flow_cfg)) = Some 2%nat) by (vm_compute; reflexivity).
+  rewrite E in K. cbn in K. now inversion K.
+Qed.
+Print Assumptions C01_exclusive_conn_flow_refuted.
+
+(** exclusivity can only be violated with the flow buffer and the PutFail-in-state-0 step *)
+Theorem C01_exclusive_conn_characterised : forall g sched s,
+  prun g sched (p_init g) = Some s -> (1 < users s)%nat -> g_kind g = Flow /\ g_putfail0 g = true.
+Proof.
+  intros g sched s H Hu.
+  destruct (g_kind g) eqn:Ek.
+  - exfalso. pose proof (exclusive_conn g (or_introl Ek) sched s H). apply (Nat.lt_irrefl 1). eapply Nat.lt_le_trans; eauto.
+  - split; [reflexivity|]. destruct (g_putfail0 g) eqn:Ep; [reflexivity|].
+    exfalso. pose proof (exclusive_conn g (or_intror Ep) sched s H). apply (Nat.lt_irrefl 1). eapply Nat.lt_le_trans; eauto.
+Qed.
+Print Assumptions C01_exclusive_conn_characterised.
+
+(** Routing: in every reachable state, for every call t,
+    (a) the results delivered to t so far are a prefix of the replies the server gave to t's own
+        commands, in command order, possibly followed by error entries (connection failure / Close);
+    (b) if t returned and every returned entry is a reply (no error, in particular no cancellation),
+        it returned exactly the replies to its own commands. *)
+Theorem C01_routing_partial : forall g sched s t,
+  server_ok g -> g_ver g <> 6%Z -> (g_kind g = Ring \/ g_putfail0 g = false) ->
+  prun g sched (p_init g) = Some s ->
+  (exists k es, k_res (p_calls s t) =
+                map RMsg (map (result_of (g_srv g)) (firstn k (k_cmds (p_calls s t)))) ++ map RErr es) /\
+  (forall r, k_ret (p_calls s t) = Some r -> (forall x, In x r -> exists m, x = RMsg m) ->
+             k_cmds (p_calls s t) <> [] ->
+             r = map RMsg (map (result_of (g_srv g)) (k_cmds (p_calls s t)))).
+Proof. intros g sched s t Hs Hv Hg H. exact (routing g Hs Hv Hg sched s t H). Qed.
+Print Assumptions C01_routing_partial.
+
+(** the same for the ring queue, without any side condition on schedules *)
+Theorem C01_routing : forall g sched s t,
+  g_kind g = Ring -> server_ok g -> g_ver g <> 6%Z ->
+  prun g sched (p_init g) = Some s ->
+  (exists k es, k_res (p_calls s t) =
+                map RMsg (map (result_of (g_srv g)) (firstn k (k_cmds (p_calls s t)))) ++ map RErr es) /\
+  (forall r, k_ret (p_calls s t) = Some r -> (forall x, In x r -> exists m, x = RMsg m) ->
+             k_cmds (p_calls s t) <> [] ->
+             r = map RMsg (map (result_of (g_srv g)) (k_cmds (p_calls s t)))).
+Proof. intros g sched s t Hk Hs Hv H. exact (routing g Hs Hv (or_introl Hk) sched s t H). Qed.
+Print Assumptions C01_routing.
+
+(** for ServerProto servers the reader never reaches panic(protocolbug): it can always take the next frame *)
+Theorem C01_no_protocol_panic : forall g sched s r,
+  server_ok g -> g_ver g <> 6%Z -> (g_kind g = Ring \/ g_putfail0 g = false) ->
+  prun g sched (p_init g) = Some s ->
+  p_b s = BRead r -> p_s2c s <> [] -> exists s', pstep g s LRStep = Some s'.
+Proof.
+  intros g sched s r Hs Hv Hg H Hb Hne.
+  destruct (inv_reach g Hs Hv Hg sched s H) as [_ IB]. exact (rstep_enabled g Hs Hv s r IB Hb Hne).
+Qed.
+Print Assumptions C01_no_protocol_panic.
+
+(** non-vacuity: two callers, the first runs synchronously, the second (a batch with a 2-channel
+    subscribe and an unsubscribe) is queued, the pipe switches to background mode, a push arrives in
+    between; both calls return their own replies. *)
+Definition sub2 (id : N) : cmd := mkCmd id 3 true false false false false false.
+Definition unsub1 (id : N) : cmd := mkCmd id 2 true true false false false false.
+Definition conf (ch : N) : msg := Msg 62 [] 0 [Msg 36 (b "subscribe"%string) 0 []; Msg 36 [ch] 0 []; Msg 58 [] 1 []].
+Definition demo_srv : server :=
+  mkSrv (fun c => Msg 36 [c_id c] 0 []) (fun c => [conf 1; conf 2]) (fun c => pong_msg).
+Definition demo_cfg : config := mkCfg Ring 2 false 7 demo_srv false.
+Definition a_push : msg := Msg 62 [] 0 [Msg 36 (b "message"%string) 0 []; Msg 36 [7] 0 []; Msg 36 [8] 0 []].
+Definition demo_sched : list label :=
+  [LCall 1 [plain 10] false CtxBg; LIncr 1; LLoad 1; LSyncW 1;
+   LCall 2 [plain 20; sub2 21; unsub1 22] true CtxBg; LIncr 2; LLoad 2; LPut 2;
+   LSrv; LSyncR 1; LDecr 1; LBgAfter 1;
+   LWNext; LWFlush; LSrv; LSrvPush a_push; LSrv; LSrv;
+   LRStep; LRStep; LRStep; LRStep; LRStep; LRecv 2; LFin 2].
+
+Example C01_nonvacuous :
+  option_map (fun s => (users s, k_ret (p_calls s 1), k_ret (p_calls s 2)))
+             (prun demo_cfg demo_sched (p_init demo_cfg)) =
+  Some (1%nat, Some [RMsg (Msg 36 [10] 0 [])],
+        Some [RMsg (Msg 36 [20] 0 []); RMsg empty_msg; RMsg pong_msg]).
+Proof. vm_compute. reflexivity. Qed.
+
+Example C01_nonvacuous_server_ok :
+  forallb (cmd_served_ok false demo_srv) [plain 10; plain 20; sub2 21; unsub1 22] = true.
+Proof. vm_compute. reflexivity. Qed.
